@@ -128,6 +128,8 @@ func (m *Machine) mergeEval(fn *ssa.Function, args []Value, depth int) *Term {
 	}
 	var result *Term
 	haveResult := false
+	steps0 := m.steps
+	defer func() { m.Stats.Funcs[fn.String()+" (ite-merged)"] += m.steps - steps0 }()
 	for _, b := range order {
 		g, ok := guard[b]
 		if !ok || g == C.False {
